@@ -158,7 +158,7 @@ pub fn property() -> Property {
     Property {
         id: "C07",
         level: "exploration",
-        rule: "cases are (file bytes from the three input modes: rich generated files with overrides/corruption, mutated linker-produced samples, raw bytes) x (an operation sequence of 0..40 stream calls drawn with repetition from counts, section_data, section_data_as_strtab/rels/relas/notes, segment_data_as_notes, section names, section_header_by_name, symbol_table, dynamic_symbol_table, dynamic, symbol-version requirement/definition queries, on the file's own headers and on fabricated headers whose (start,end) come from a pool of five boundaries so that different ranges share a start or an end and recur) x (a reader delivering chunks of 1..n bytes and/or ErrorKind::Interrupted every n-th read). Oracle = the slice parser on the same bytes: open_stream Ok iff minimal_parse Ok; identical file header, every section header and every program header; each stream op is Ok whenever the slice op is Ok and then has an equal content digest; for section_data, both symbol tables, symbol-version queries and segment notes Ok/Err coincide exactly; after every op a randomly chosen earlier op is repeated and must answer as before. Out of scope exactly as the statement says (skipped, counted): ops on SHF_COMPRESSED sections and files whose section table is present but empty. Non-trivial: opened, >=3 ops, and two fabricated ranges sharing exactly one endpoint or a repeated range; distinct by (file, ops, reader) hash.",
+        rule: "cases are (file bytes from the three input modes: rich generated files with overrides/corruption, mutated linker-produced samples, raw bytes) x (an operation sequence of 0..40 stream calls drawn with repetition from counts, section_data, section_data_as_strtab/rels/relas/notes, segment_data_as_notes, section names, section_header_by_name, symbol_table, dynamic_symbol_table, dynamic, symbol-version requirement/definition queries, on the file's own headers and on fabricated headers whose (start,end) come from a pool of five boundaries so that different ranges share a start or an end and recur) (8% of the histories: 60..150 calls over many distinct fabricated ranges before the multi-range accessors) x (a reader delivering chunks of 1..n bytes and/or ErrorKind::Interrupted every n-th read, handed over with its cursor at 0, 4, 16 or a random position; in a fifth of the cases one transient hard I/O error is injected after opening: the call it hits may fail, but whenever both parsers succeed - also on a later repetition - the content must be identical). Oracle = the slice parser on the same bytes: open_stream Ok iff minimal_parse Ok; identical file header, every section header and every program header; each stream op is Ok whenever the slice op is Ok and then has an equal content digest; for section_data, both symbol tables, symbol-version queries and segment notes Ok/Err coincide exactly; after every op a randomly chosen earlier op is repeated and must answer as before. Out of scope exactly as the statement says (skipped, counted): ops on SHF_COMPRESSED sections and files whose section table is present but empty. Non-trivial: opened, >=3 ops, and two fabricated ranges sharing exactly one endpoint or a repeated range; distinct by (file, ops, reader) hash.",
         assumptions: &["digests compare content, not error kinds", "the stream's dynamic() legitimately skips the sh_entsize check: only slice Ok => stream Ok is required there"],
         subs: vec![Sub::new("stream_diff", oracle, 3200, 800_000, 30_000_000).shrink(2000), Sub::new("stream_diff_raw", oracle_raw, 600, 20_000, 200_000).shrink(2000)],
         extras: vec![crate::fuzz::c07_campaign],
